@@ -98,6 +98,7 @@ type checkOpts struct {
 	keep              bool
 	noReplay          bool
 	seed              int64
+	choices           string
 }
 
 func checkMain(args []string) int {
@@ -111,6 +112,7 @@ func checkMain(args []string) int {
 	fs.StringVar(&o.repo, "repo", "/repo", "repository under test")
 	fs.DurationVar(&o.jobTmo, "jobtmo", 0, "per job wall limit")
 	fs.BoolVar(&o.keep, "keep", false, "keep temp dir")
+	fs.StringVar(&o.choices, "choices", "", "comma separated initial choice vector (debugging)")
 	fs.BoolVar(&o.noReplay, "noreplay", false, "skip native replay (debugging only; never exits 0/1)")
 	fs.Parse(args)
 	if o.prop == "" {
@@ -216,8 +218,15 @@ func runCheck(o *checkOpts) int {
 	var queue []Job
 	pending := 0
 	var results []JobResult
+	var initChoices []int
+	if o.choices != "" {
+		for _, f := range strings.Split(o.choices, ",") {
+			v, _ := strconv.Atoi(strings.TrimSpace(f))
+			initChoices = append(initChoices, v)
+		}
+	}
 	for _, h := range hs {
-		queue = append(queue, Job{Harness: h.name})
+		queue = append(queue, Job{Harness: h.name, Choices: initChoices})
 		pending++
 	}
 	fatalErr := ""
